@@ -41,7 +41,8 @@ def run(ctx):
     ctx.rule = ("each command (editor with 2..5 overlapping scene-cut / active-area ranges, generate from JSON / CM XML incl. "
                 "several target displays, export all/scenes/level5, info -s, extract-rpu, convert, demux, mux, inject-rpu, remove "
                 "on the repository's sample streams and on generated RPU lists) is executed in 8 (quick) / 16 (thorough) fresh "
-                "processes with varied HOME, LANG/LC_ALL, working directory, RUST_BACKTRACE, font configuration and time zone; "
+                "processes with varied HOME, LANG/LC_ALL, working directory, RUST_BACKTRACE, font configuration and time zone, and "
+                "(every third process) output paths that already hold longer files; generated CM XML with >= 3 custom target displays sharing peak/min/primaries; "
                 "output file hashes, exit status (and stdout where it is the product) must coincide; the Lean theorem states that "
                 "the editor model depends only on the set of map entries; non-trivial = command produced output; distinct by command line")
     ctx.assumptions = ["repeated execution is exploration, not proof: it samples process-level nondeterminism (hash seeds, environment)",
@@ -83,6 +84,34 @@ def run(ctx):
             if x.endswith(".xml"):
                 xp = os.path.join(ASSETS, "tests", x)
                 jobs.append(("generate-xml-" + x, (lambda o, xp=xp: (["generate", "--xml", xp, "-o", os.path.join(o, "g.bin")], ["g.bin"])), False))
+        # generated CM XML with several custom target displays that share their values (ties in any ordering key)
+        from . import xmlgen
+        xr = rng.fork("xml")
+        nx = 0
+        tries = 0
+        while nx < (6 if ctx.tier == "quick" else 40) and tries < 2000:
+            tries += 1
+            doc = xmlgen.gen_doc(xr, max_shots=2, max_dur=2, beyond=False)
+            if doc["version"] == "2.0.5":
+                continue
+            custom = [t for t in doc["targets"] if t["id"] not in xmlgen.PRESET_TARGETS]
+            while len(custom) < 3:
+                i = 50 + xr.below(200)
+                if i in [t["id"] for t in doc["targets"]] or i in xmlgen.PRESET_TARGETS:
+                    continue
+                t = {"id": i, "peak": 1000, "min": 0.0001, "prim": xmlgen.gen_primaries(xr), "app": "HOME"}
+                doc["targets"].append(t); custom.append(t)
+            share = xr.choice(["peak", "peak+min", "all"])
+            for t in custom[1:]:
+                t["peak"] = custom[0]["peak"]
+                if share != "peak":
+                    t["min"] = custom[0]["min"]
+                if share == "all":
+                    t["prim"] = list(custom[0]["prim"])
+            xp = os.path.join(shared, "gen%d.xml" % nx)
+            open(xp, "w").write(xmlgen.render(doc))
+            jobs.append(("generate-xml-shared-targets-%d" % nx, (lambda o, xp=xp: (["generate", "--xml", xp, "-o", os.path.join(o, "g.bin")], ["g.bin"])), False))
+            nx += 1
         for x in sorted(os.listdir(os.path.join(ASSETS, "generator_examples"))):
             jp = os.path.join(ASSETS, "generator_examples", x)
             jobs.append(("generate-json-" + x, (lambda o, jp=jp: (["generate", "-j", jp, "-o", os.path.join(o, "g.bin")], ["g.bin"])), False))
@@ -104,6 +133,11 @@ def run(ctx):
             o = os.path.join(work, "out-%s-%d" % (name.replace("/", "_"), r))
             os.makedirs(o, exist_ok=True)
             args, outs = build(o)
+            if r % 3 == 1:
+                # filesystem state must not leak in either: the output paths already hold (longer) files
+                for n in outs:
+                    with open(os.path.join(o, n), "wb") as fh:
+                        fh.write((b"\x00\x00\x00\x01" + b"\x19" + bytes(range(256))) * 12000)
             rc, so, se = clirun.run(args, cwd=cwd, env=env, timeout=300)
             dg = digest_dir(o, outs)
             shutil.rmtree(o, ignore_errors=True)
